@@ -44,6 +44,12 @@ VARIABLES
 
 vars == <<ginfo, ev, cl, proc, msgs, snapq, hyd, withdrawn, wl, welc, pwelc, hist>>
 
+\* The Nostr identity (user) a client acts for. Several clients -- devices -- may share one identity: each has its own leaf,
+\* key packages and storage, while admin rights, authorship of messages and removal by an admin go by identity.
+\* Group state: `members` is a set of clients (leaves), `admins` a set of users.   (overridden by the trace cfg)
+U(c) == c
+UsersOf(S) == {U(x) : x \in S}
+
 NoE == ""          \* "no event"
 NoEpoch == -1      \* "epoch unknown"
 
@@ -174,7 +180,8 @@ TakeSnapshot(cs00, g, e) ==
         nseq  == 1 + (IF gs.stored = {} THEN 0 ELSE CHOOSE m \in {x.seq : x \in gs.stored} : \A y \in gs.stored : y.seq <= m)
         st1   == {s \in gs.stored : ~(s.epoch = entry.epoch /\ s.commit = e)}
                    \cup {[epoch |-> entry.epoch, commit |-> e, seq |-> nseq, snap |-> SnapOf(gs), born |-> cs.now]}
-        q1    == Append(cs.q[g], entry)
+        \* one queue entry per stored snapshot: re-applying the same commit at the same epoch replaces its entry
+        q1    == Append(SelectSeq(cs.q[g], LAMBDA x : ~(x.epoch = entry.epoch /\ x.commit = e)), entry)
         drop  == IF Len(q1) > Retention THEN Len(q1) - Retention ELSE 0
         gone  == {<<q1[i].epoch, q1[i].commit>> : i \in 1..drop}
         q2    == SubSeq(q1, drop + 1, Len(q1))
@@ -214,7 +221,8 @@ Pid(e) == [a |-> ev[e].author, k |-> ev[e].pkind, t |-> ev[e].target]
 PropRemoves(P) == {p.t : p \in {q \in P : q.k \in {"leave", "remove"}}}
 
 ApplyEff(gs0, eff, P) ==
-    LET m1 == (gs0.members \cup eff.add) \ (eff.rem \cup PropRemoves(P)) IN
+    \* remove_members names identities: every leaf of a removed user goes; proposals (leave / Remove) name single leaves
+    LET m1 == (gs0.members \cup eff.add) \ ({x \in gs0.members : U(x) \in eff.rem} \cup PropRemoves(P)) IN
     [ members |-> m1,
       admins  |-> IF eff.kind = "admins" THEN eff.set ELSE gs0.admins,
       name    |-> IF eff.kind = "rename" THEN eff.str ELSE gs0.name,
@@ -285,9 +293,9 @@ ProcApp(cs, c, e, g, recEpoch, nm) ==
     LET E    == ev[e]
         m    == E.msg
         cur  == Cur(cs, g) IN
-    IF m.claimed # E.author THEN FailUnprocessable(cs, e, g, recEpoch)   \* AuthorMismatch
+    IF U(m.claimed) # U(E.author) THEN FailUnprocessable(cs, e, g, recEpoch)   \* AuthorMismatch
     ELSE LET filed == IF "AppFiledUnderReceiverEpoch" \in Dev THEN cur ELSE EpochOf(g, E.parent)
-             rowm  == [author |-> m.claimed, state |-> "processed", epoch |-> filed, w |-> e,
+             rowm  == [author |-> U(m.claimed), state |-> "processed", epoch |-> filed, w |-> e,
                        content |-> m.content, ca |-> m.ca, pa |-> nm.now, idr |-> m.idr, idok |-> StoreKey(m) = m.id]
              cs1   == [cs EXCEPT !.msgs = (<<g, StoreKey(m)>> :> rowm) @@ @]
              cs2   == SetProc(cs1, e, "processed", g, filed)
@@ -297,7 +305,7 @@ ProcApp(cs, c, e, g, recEpoch, nm) ==
 ProcProposal(cs, c, e, g, recEpoch, nm) ==
     LET E == ev[e]
         cur == Cur(cs, g)
-        amAdmin == c \in MlsState(cs, g).admins IN
+        amAdmin == U(c) \in MlsState(cs, g).admins IN
     CASE E.pkind \in {"add", "remove"} \/ (E.pkind = "leave" /\ ~amAdmin) ->
             Ret(SetProc([cs EXCEPT !.g[g].props = @ \cup {Pid(e)}], e, "processed", g, cur), "PendingProposal")
       [] E.pkind = "leave" /\ amAdmin ->
@@ -319,7 +327,7 @@ ProcProposal(cs, c, e, g, recEpoch, nm) ==
 ProcCommit(cs, c, e, g, recEpoch) ==
     LET E   == ev[e]
         gs0 == MlsState(cs, g) IN
-    IF E.author \notin gs0.admins /\ ~LooksLikeSelfUpdate(e)
+    IF U(E.author) \notin gs0.admins /\ ~LooksLikeSelfUpdate(e)
     THEN Ret(RecordFailure(cs, e, g, recEpoch), "Err")                      \* CommitFromNonAdmin
     ELSE IF E.eff.kind = "idchange"
     THEN FailUnprocessable(cs, e, g, recEpoch)                               \* IdentityChangeNotAllowed
@@ -502,7 +510,7 @@ Reset ==
 \* create_group + every invited member processes and accepts its welcome (one composite step)
 CreateGroup(c, g, members, admins, nid, base) ==
     /\ ~Created(g)
-    /\ c \in admins /\ c \notin members /\ admins \subseteq members \cup {c}
+    /\ U(c) \in admins /\ c \notin members /\ admins \subseteq UsersOf(members \cup {c})
     /\ LET init == [members |-> members \cup {c}, admins |-> admins, name |-> "name0-" \o g,
                     desc |-> "desc0-" \o g, nid |-> nid, relays |-> {"wss://r1.example"}]
            gs(su) == [NoGroup EXCEPT !.mls = "ok",
@@ -530,11 +538,11 @@ CommitAllowedX(c, g, kind, arg, raw) ==
     LET s == GS(g, cl[c][g].chain) IN
     /\ c \in s.members
     /\ c \notin PropRemoves(cl[c][g].props)      \* a committer cannot commit its own removal
-    /\ (kind # "self_update" /\ ~raw) => c \in s.admins
+    /\ (kind # "self_update" /\ ~raw) => U(c) \in s.admins
     /\ kind = "idchange" => raw /\ arg.from = c /\ arg.to \in s.members /\ arg.to # c
-    /\ kind = "remove" => arg # {} /\ arg \subseteq s.members /\ c \notin arg
+    /\ kind = "remove" => arg # {} /\ arg \subseteq UsersOf(s.members) /\ U(c) \notin arg
     /\ kind = "add" => arg # {} /\ arg \cap s.members = {}
-    /\ kind = "admins" => arg # {} /\ (raw \/ arg \subseteq s.members)
+    /\ kind = "admins" => arg # {} /\ (raw \/ arg \subseteq UsersOf(s.members))
 CommitAllowed(c, g, kind, arg) == CommitAllowedX(c, g, kind, arg, FALSE)
 
 \* wn: function from each added user to the name of the welcome produced for it
@@ -590,7 +598,7 @@ SendMessage(c, g, nm, m) ==
            cur == EpochOf(g, gs.chain)
            E == [name |-> nm.name, kind |-> "app", g |-> g, author |-> c, parent |-> gs.chain,
                  ts |-> nm.ts, rank |-> nm.rank, tag |-> gs.rec.data.nid, msg |-> m, gen |-> gs.sentA]
-           rowm == [author |-> m.claimed, state |-> "created", epoch |-> cur, w |-> nm.name,
+           rowm == [author |-> U(m.claimed), state |-> "created", epoch |-> cur, w |-> nm.name,
                     content |-> m.content, ca |-> m.ca, pa |-> nm.now, idr |-> m.idr, idok |-> StoreKey(m) = m.id]
            cs0 == CS(c)
            cs1 == [cs0 EXCEPT !.g[g] = PutSecret(@, cur, gs.chain), !.out = <<E>>, !.g[g].sentA = @ + 1,
@@ -794,7 +802,7 @@ ValidCommit(k) ==
         s == GS(E.g, E.parent) IN
     /\ E.kind = "commit" /\ k \notin withdrawn
     /\ E.author \in s.members
-    /\ E.author \in s.admins \/ PureSelfUpdate(k)
+    /\ U(E.author) \in s.admins \/ PureSelfUpdate(k)
 Cands(g, W) == {k \in DOMAIN ev : ev[k].g = g /\ ev[k].kind = "commit" /\ ev[k].parent = W /\ ValidCommit(k)}
 BestOf(S) == CHOOSE k \in S : \A j \in S \ {k} : Better(k, j)
 RECURSIVE WinnerFrom(_, _)
@@ -911,13 +919,13 @@ C02_Ex(pr) ==
     \A g \in Groups : Created(g) => \A e \in AppEvents(g), c \in Clients :
        LET k == <<g, ev[e].msg.id>> IN
        /\ (/\ OnWinner(g, ev[e].parent)
-           /\ ev[e].msg.claimed = ev[e].author /\ ev[e].msg.preset = ""      \* honest messages only
+           /\ U(ev[e].msg.claimed) = U(ev[e].author) /\ ev[e].msg.preset = ""      \* honest messages only
            /\ c \in GS(g, ev[e].parent).members
            /\ ConvergedAt(c, g)
            /\ <<c, e>> \in hist.tried /\ <<c, e>> \notin hist.late)
           => \/ /\ k \in DOMAIN msgs[c]
                 /\ msgs[c][k].state = "processed"
-                /\ msgs[c][k].author = ev[e].author
+                /\ msgs[c][k].author = U(ev[e].author)
                 /\ msgs[c][k].content = ev[e].msg.content
                 /\ msgs[c][k].w = e
              \/ /\ Excused_AppFiledUnderReceiverEpoch(c, e)
@@ -966,14 +974,14 @@ C03_OnlyMembers == \A c \in Clients : \A k \in DOMAIN msgs[c] :
 C04_Bound == \A c \in Clients : \A k \in DOMAIN msgs[c] :
     LET r == msgs[c][k] IN
     (r.w \in DOMAIN ev /\ ev[r.w].author # c) =>
-        /\ r.author = ev[r.w].author                       \* attributed to the MLS-authenticated sender
+        /\ r.author = U(ev[r.w].author)                    \* attributed to the identity of the MLS-authenticated sender
         /\ \/ r.idok                                       \* id = hash of the stored fields
            \/ /\ "RumorIdTrusted" \in Dev
               /\ PrintT(<<"KNOWN-FINDING", "C04", "RumorIdTrusted", c, k[2]>>)
 \* action property: an event authenticated as x's never touches a stored message of another author
 C04_NoForeignWrite(c, e) ==
     \A k \in DOMAIN msgs[c] :
-        (msgs[c][k].author # ev[e].author) =>
+        (msgs[c][k].author # U(ev[e].author)) =>
             /\ k \in DOMAIN msgs'[c]
             /\ \/ msgs'[c][k].author = msgs[c][k].author /\ msgs'[c][k].content = msgs[c][k].content /\ msgs'[c][k].w = msgs[c][k].w
                \/ "RumorIdTrusted" \in Dev /\ ev[e].kind = "app" /\ ev[e].msg.preset = k[2]
@@ -1001,7 +1009,7 @@ Refusals == {"Err", "Unprocessable", "PreviouslyFailed", "IgnoredProposal"}
 Excused_RefusedLeaveQueued(c, e) ==
     /\ "RefusedLeaveStaysQueued" \in Dev
     /\ ev[e].kind = "prop" /\ ev[e].pkind = "leave"
-    /\ c \in GS(ev[e].g, cl[c][ev[e].g].chain).admins
+    /\ U(c) \in GS(ev[e].g, cl[c][ev[e].g].chain).admins
 
 \* --- C08: the stored record mirrors the MLS state (checked after every call) ---
 \* (finding WelcomeOverwritesActiveGroup: a welcome for a group the client already holds rewrites the record /
